@@ -28,7 +28,7 @@ from pysmt.exceptions import PysmtException
 import common
 import wire
 
-LEAN_MODULES = ["PySMT.Props.C03"]
+LEAN_MODULES = ["PySMT.Props.C03", "PySMT.Props.Bridge"]
 RULE = ("exhaustive grids, nothing sampled: (A) create_node on each of the 66 node types x every argument-sort tuple over a "
         "14-sort universe {Bool,Int,Real,String,BV1,BV2,BV8,Array Int Int,Array BV2 Bool,Array Int (Array Int Real),S,"
         "Int->Int,BoolxInt->Bool,S->S} for arity 0-2 x every payload corner, arity 3 (quick: 12 sorts for ternary operators, "
